@@ -29,6 +29,7 @@ class Compiler:
         self.next_internal_symbol_prefix = 1
         self.times_file_compiled = collections.defaultdict(int)
         self.internal_prefix_to_state = {}
+        self.include_depth = 0
 
 
     def compile_file(self, file, start, link_base):
@@ -344,9 +345,11 @@ class Compiler:
             "set_where": None
         }
 
+        self.include_depth += 1
         try:
             code = self.compile_file(file, link_base["promise"], link_base)
         finally:
+            self.include_depth -= 1
             # Also when compilation of the included file is aborted by an
             # error: its labels are still resolved at the end
             if not link_base["promise"].settled:
